@@ -1,11 +1,11 @@
 #!/bin/bash
 # usage: mrun.sh <patch.diff> <PROP> [more props...]
-# detection trial without touching /repo: applies the patch to the scratch worktree /tmp/mr1 and runs the checks from a
-# scratch copy of /verif (/tmp/vf2, own build directories) with VERIF_REPO pointing at it
+# detection trial without touching /repo: applies the patch to the scratch worktree ${MR:-/tmp/mr1} and runs the checks from a
+# scratch copy of /verif (${VF:-/tmp/vf2}, own build directories) with VERIF_REPO pointing at it
 PATCH=$1; shift
-rsync -a --exclude .build --exclude .git --exclude replays --exclude evidence --exclude tmp /verif/ /tmp/vf2/
-cd /tmp/mr1 && git checkout -q -- . && git apply $PATCH || { echo APPLY-FAILED; exit 5; }
+rsync -a --exclude .build --exclude .git --exclude replays --exclude evidence --exclude tmp /verif/ ${VF:-/tmp/vf2}/
+cd ${MR:-/tmp/mr1} && git checkout -q -- . && git apply $PATCH || { echo APPLY-FAILED; exit 5; }
 for P in "$@"; do
-  (cd /tmp/vf2 && VERIF_REPO=/tmp/mr1 timeout 3000 ./check $P > /tmp/mrun-$P.log 2>&1; echo "$P exit=$? $(grep -c '^VIOLATION' /tmp/mrun-$P.log) violations"; grep "signature" /tmp/mrun-$P.log | sort | uniq -c | sort -rn | head -5; tail -1 /tmp/mrun-$P.log)
+  (cd ${VF:-/tmp/vf2} && VERIF_REPO=${MR:-/tmp/mr1} timeout 3000 ./check $P > /tmp/mrun${LANE:-}-$P.log 2>&1; echo "$P exit=$? $(grep -c '^VIOLATION' /tmp/mrun${LANE:-}-$P.log) violations"; grep "signature" /tmp/mrun${LANE:-}-$P.log | sort | uniq -c | sort -rn | head -5; tail -1 /tmp/mrun${LANE:-}-$P.log)
 done
-cd /tmp/mr1 && git checkout -q -- .
+cd ${MR:-/tmp/mr1} && git checkout -q -- .
